@@ -18,6 +18,7 @@ pub fn info() -> PropInfo {
             "if issuance fails or the issued hidden set cannot be decoded the case is void (C01/C05's subject); >50% void cases make the run inconclusive",
         ],
         needs_mock: false,
+        rounds: 2,
     }
 }
 
